@@ -256,8 +256,9 @@ def ref_crc32(data):
     return reg
 
 
-def generated_data_tx(r, rate, conf, n, preambles, cc, sap, payload_kind="random", dst=77, src=5678, fmt="data", payload_override=None, retry=False):
-    """data transmission built by the real TransmissionGenerator; returns (bursts, meta)"""
+def generated_data_tx(r, rate, conf, n, preambles, cc, sap, payload_kind="random", dst=77, src=5678, fmt="data", payload_override=None, retry=False, hdr_pool=None):
+    """data transmission built by the real TransmissionGenerator; returns (bursts, meta).  `hdr_pool`: dict in which the sender keeps ONE DataHeader object
+    per (format, confirmed) and re-uses it for later packets, updating only what changes (a stingy but legal caller)"""
     from math import ceil
 
     opb, olb = TAB[(rate, conf)]
@@ -301,25 +302,40 @@ def generated_data_tx(r, rate, conf, n, preambles, cc, sap, payload_kind="random
         n = len(payload)
     nb = max(1, ceil(1 + (n - olb) / opb))
     poc = (nb - 1) * opb + olb - n
-    if fmt == "sdd":
+    hdr = None
+    hkey = (fmt, conf)
+    if hdr_pool is not None and retry is False and hkey in hdr_pool and r.random() < 0.6:
+        hdr = hdr_pool[hkey]  # the header object of an earlier packet, brought up to date
+        hdr.pad_octet_count = poc
+        if fmt == "sdd":
+            hdr.appended_blocks = nb
+        else:
+            hdr.blocks_to_follow = nb
+        hdr.sap_identifier, hdr.llid_destination, hdr.llid_source = sap, dst, src
+    elif fmt == "sdd":
         # defined short data header (DD_HEAD): confirmed when the A bit is set -- the form text messages use on air; announces appended blocks
         from okdmr.dmrlib.etsi.layer2.elements.defined_data_formats import DefinedDataFormats
         from okdmr.dmrlib.etsi.layer2.elements.sarq import SARQ
 
         hdr = DataHeader(dpf=DataPacketFormats.ShortDataDefined, sap_identifier=sap, is_response_requested=conf, pad_octet_count=poc,
                          llid_destination=dst, llid_source=src, appended_blocks=nb, defined_data_format=r.choice(list(DefinedDataFormats)),
-                         sarq=SARQ(r.randrange(2)), full_message_flag=FullMessageFlag.FirstTryToCompletePacket,
+                         sarq=SARQ(r.randrange(2)), full_message_flag=FullMessageFlag(r.randrange(2)),
                          bit_padding=int2ba(r.getrandbits(8), 8), is_group=r.random() < 0.5)
     elif fmt == "resp":
         hdr = DataHeader(dpf=DataPacketFormats.ResponsePacket, sap_identifier=sap, is_response_requested=conf, pad_octet_count=poc,
-                         llid_destination=dst, llid_source=src, blocks_to_follow=nb, full_message_flag=FullMessageFlag.FirstTryToCompletePacket,
+                         llid_destination=dst, llid_source=src, blocks_to_follow=nb, full_message_flag=FullMessageFlag(r.randrange(2)),
                          response_class=r.randrange(4), response_type=r.randrange(8), response_status=r.randrange(8))
     else:
+        # every field of the header is the sender's to choose: re-synchronise flag, N(S), fragment sequence number, full-message flag, group / individual
         hdr = DataHeader(dpf=DataPacketFormats.DataPacketConfirmed if conf else DataPacketFormats.DataPacketUnconfirmed, sap_identifier=sap,
                          is_response_requested=conf, pad_octet_count=poc, llid_destination=dst, llid_source=src, blocks_to_follow=nb,
-                         full_message_flag=FullMessageFlag(0) if retry else FullMessageFlag.FirstTryToCompletePacket,
-                         resynchronize_flag=ResynchronizeFlag(0) if conf else None,
-                         fragment_sequence_number=8, is_group=False if retry is not False else r.random() < 0.5)
+                         full_message_flag=FullMessageFlag(0) if retry else (FullMessageFlag.FirstTryToCompletePacket if retry is None else FullMessageFlag(r.randrange(2))),
+                         resynchronize_flag=(ResynchronizeFlag(0) if retry is not False else ResynchronizeFlag(r.randrange(2))) if conf else None,
+                         send_sequence_number=(3 if retry is not False else r.randrange(8)) if conf else 0,
+                         fragment_sequence_number=8 if retry is not False else r.choice([0, 8, 8, 9, 15, r.randrange(16)]),
+                         is_group=False if retry is not False else r.random() < 0.5)
+    if hdr_pool is not None and retry is False:
+        hdr_pool[hkey] = hdr
     userdata = payload
     if r.random() < 0.15:
         from okdmr.dmrlib.utils.bytes_interface import BytesInterface
@@ -479,12 +495,13 @@ class Receiver:
         self.second = None
         self.raiser = None
         ro = knobs.get("raising_observer")
-        if ro:
-            self.raiser = Rec("raiser", self.seam, raise_on=ro["on"], exc=ro.get("exc", "ValueError"))
-            obs.insert(ro.get("pos", 0) % 2, self.raiser)
         if knobs.get("second_observer", True):
             self.second = Rec("second", self.seam)
             obs.append(self.second)
+        if ro:
+            # the raising observer's place in the registration order is seeded: first, between the two recorders, or LAST (nobody is called after it)
+            self.raiser = Rec("raiser", self.seam, raise_on=ro["on"], exc=ro.get("exc", "ValueError"))
+            obs.insert(ro.get("pos", 0) % (len(obs) + 1), self.raiser)
         if knobs.get("inline_observers"):
             obs = [make_forwarder(o) for o in obs]  # observer objects owned by nobody but the library
         self.watcher = TransmissionWatcher(observers=obs)
